@@ -149,7 +149,8 @@ def c11_harness(kind, op, suf):
                 '  g_e = e;\n  unsigned r = %s((char*)&to, (%s)x, e, dir);\n  W en = %s, ed = %s;\n  %s\n' % (k, ut, en, ed, judge))
         decl = 'unsigned int %s(char*, %s, unsigned int, unsigned int);\n' % (k, ut)
     decl += '%s nondet_%s(void);\n' % (ct, suf)
-    wide = '__int128' if '64' in suf or (op in EXP and '32' in suf) else 'long'
+    # u32 products reach 2^64: they need the 128-bit oracle type as well (a 64-bit `long' overflowed in the oracle itself)
+    wide = '__int128' if '64' in suf or (op in EXP and '32' in suf) or (suf == 'u32' and 'mul' in op) else 'long'
     muled = 'SHL((v), g_e)' if op == 'div2exp' else '((v) * ed)' if op in ('div', 'xdiv') else 'SHL((v), 1)' if op == 'xdiv2' else '(v)'
     return k, h, '#define WTYPE %s\n#define MULED(v) %s\n#define EMAX %su\n#include "c11_judge.h"\n' % (wide, muled, '24' if ('8' in suf or '16' in suf) else '40') + decl + 'void %s(void) {\n  %s%s}\n' % (h, body, wit)
 
